@@ -217,3 +217,14 @@ def _find_violation(e, depth=0):
 
 def shard_seed(seed, *parts):
     return h64(json.dumps([seed] + [str(p) for p in parts])) % (2 ** 31)
+
+
+def lru_cached_functions(module):
+    """(name, function) of every functools.lru_cache-wrapped function at module level (found by shape, not by name, so a
+    renamed or additional cache is handled too)"""
+    return [(k, v) for k, v in sorted(vars(module).items()) if callable(getattr(v, 'cache_clear', None)) and hasattr(v, '__wrapped__')]
+
+
+def clear_lru_caches(module):
+    for _, f in lru_cached_functions(module):
+        f.cache_clear()
